@@ -15,7 +15,10 @@
     observed at the shared mutex, must be: each name once, ascending, for writing iff the
     name is in the write list.
 (T) free-running holders (4-16, random maps over 6 names, random hold times) log
-    want / inside / leaving; Trace_NamedLocks.tla checks exclusion on every entry."""
+    want / inside / leaving; Trace_NamedLocks.tla checks exclusion on every entry.
+    LARGE maps and name populations (the model's names are abstract): one holder with 40 .. 1000
+    names gets them all; two holders with disjoint maps of that size never wait for each other;
+    two holders sharing one written name out of many exclude each other on it and both finish."""
 import json
 import vlib
 
